@@ -168,6 +168,42 @@ func optsGovernLookups(g *Gen, o *Out, n int) {
 					Request: lastReq(o), Detail: text})
 			}
 		}
+		// ---- a hook that replaces EVERY value (also nil interface values, nil pointers, nil maps) by the int 42:
+		// a one-part selector of a present key / field then behaves as if the datum held 42 there
+		{
+			var np *string
+			var nm map[string]int
+			holders := []interface{}{
+				map[string]interface{}{"a": nil, "b": 1, "c": np, "d": nm, "e": []interface{}{}, "f": "x"},
+				struct {
+					A interface{}
+					B int
+					C *string
+					D map[string]int
+					E []int
+					F string
+				}{nil, 1, nil, nil, nil, "x"},
+			}
+			for hi, h := range holders {
+				keys := [][]string{{"a", "b", "c", "d", "e", "f"}, {"A", "B", "C", "D", "E", "F"}}[hi]
+				key := keys[g.r.Intn(len(keys))]
+				m := GMatch{Path: []string{key}, Op: []string{"eq", "ne", "eq", "ne", "eq", "in", "empty", "matches"}[g.r.Intn(8)], Raw: []string{"42", "41", "42", "0x2a", "x", ""}[g.r.Intn(6)], Contains: g.r.Intn(2) == 0}
+				var e GExpr = m
+				if g.r.Intn(3) == 0 {
+					e = GAnd{GMatch{Path: []string{keys[g.r.Intn(len(keys))]}, Op: "eq", Raw: "42"}, m}
+				}
+				text, _, ok := g.renderTop(e)
+				if !ok {
+					continue
+				}
+				want := evalText(o, nil, text, map[string]interface{}{"a": 42, "b": 42, "c": 42, "d": 42, "e": 42, "f": 42, "A": 42, "B": 42, "C": 42, "D": 42, "E": 42, "F": 42})
+				got := evalText(o, []OptSpec{{Kind: "hook", Hook: "const42"}}, text, h)
+				o.count("govern:hook-const:" + norm(want))
+				if norm(want) != norm(got) {
+					o.finding(Finding{Property: "C18", Kind: "failing-input", What: fmt.Sprintf("a hook that replaces every value by 42 is not what the operators see for %s: %s, expected %s", key, got, want), Request: lastReq(o), Detail: text})
+				}
+			}
+		}
 		// ---- an unknown value is a no-op when every selector resolves (explicit nils — JSON null —
 		// resolve): quantifier-free combinations of matches over enumerated paths only
 		g.noMutate = true
